@@ -10,7 +10,7 @@ META = {
             'dict / Config object, followed by a probe call; the probe result is compared with the result the same call gives in a '
             'pristine interpreter state (computed before any history), caller objects and module-level state are compared with snapshots.',
     'bounds': {
-        'quick': 'histories of <=2 calls from a 16-call menu + probe (12) x shared-cache flag x shared-config flag',
+        'quick': 'histories of <=2 calls from a 20-call menu + probe x shared-cache flag x shared-config flag',
         'thorough': 'histories of <=3 calls',
     },
     'stubs': ['the menu calls are concrete and run outside the tracer; the solver decides history, probe and sharing pattern [C]'],
@@ -38,10 +38,15 @@ def menu():
         ('img', {'text': ''}),
         ('zom+lh', {'type': 'stylesheet', 'options': {'stylesheet.unitless': []}}),
         ('zom+lh', {'type': 'stylesheet'}),
+        ('tm+!!!', {'syntax': 'xsl'}),                                        # syntax-specific snippet tables ...
+        ('tm+!!!', {}),                                                       # ... must not leak into the plain markup table
+        ('bgpz+bgp:fr', {'type': 'stylesheet', 'snippets': {'bgpz': 'background-position-z:near|far'}}),
+        ('bgp:fr+bgp:n', {'type': 'stylesheet'}),
     ]
 
 
-STYLESHEET_SAME_TABLE = {5: 'builtin', 8: 'builtin', 9: 'builtin', 10: 'builtin', 6: 'foo', 7: 'foo', 14: 'builtin', 15: 'builtin'}
+STYLESHEET_SAME_TABLE = {5: 'builtin', 8: 'builtin', 9: 'builtin', 10: 'builtin', 6: 'foo', 7: 'foo', 14: 'builtin', 15: 'builtin',
+                         18: 'bgpz', 19: 'builtin'}
 
 
 def module_state():
